@@ -1,0 +1,21 @@
+// This Source Code Form is subject to the terms of the Mozilla Public
+// License, v. 2.0. If a copy of the MPL was not distributed with this
+// file, You can obtain one at http://mozilla.org/MPL/2.0/.
+
+//go:build verif
+
+package timer
+
+// Contracts for the deductive verifier in /verif (govc). Comment-only file: it
+// adds no code. Lines starting with //@ are parsed by govc; see /verif/DESIGN.md.
+
+// The resettable timer only touches its own state (time is not modelled): trusted frames.
+//@ func (*ResettableTimer).Reset
+//@   trusted
+//@   modifies *rt
+//@ func (*ResettableTimer).Clear
+//@   trusted
+//@   modifies *rt
+//@ func (*ResettableTimer).C
+//@   trusted
+//@   pure
